@@ -224,6 +224,9 @@ func (o *c03Oracle) after(ch *chain, ci *callInfo) *Violation {
 	feeAddr := authtypes.NewModuleAddress(authtypes.FeeCollectorName)
 	cell := fmt.Sprintf("%s/keyinsig=%v/mut=%s", keyKind(ch, ci), ci.Tx.KeyInSig, ci.Tx.Mut)
 	o.cells[cell]++
+	if ci.Tx.FeeDust > 0 {
+		o.c.Label(fmt.Sprintf("fee-names-a-second-denomination/accept=%v", d.accept))
+	}
 	if ci.Built.Mutated || (ci.Tx.SignWith >= 0 && ci.Tx.SignWith != ci.Tx.From) || ci.Built.Replayed {
 		o.forged++
 	} else {
@@ -346,9 +349,25 @@ func genC03(t *rapid.T, tier string) interface{} {
 			}
 		}
 	}
+	// fees in more than one denomination: half of the accounts own some "dust", and 1 transaction in 5 names dust in
+	// its fee next to (or instead of) the staking denomination - the required fee is owed in the staking denomination
+	// whatever else is offered
+	for i := range p.Gen.Accounts {
+		if rapid.Bool().Draw(t, "hasdust") {
+			p.Gen.Accounts[i].Dust = rapid.SampledFrom([]int64{1, 1000, 1000000000}).Draw(t, "dust")
+		}
+	}
+	for bi := range p.Blocks {
+		for ti := range p.Blocks[bi].Txs {
+			if rapid.IntRange(0, 4).Draw(t, "feedust") == 0 {
+				p.Blocks[bi].Txs[ti].FeeDust = rapid.SampledFrom([]int64{1, 1, 7, 2000}).Draw(t, "feedustamt")
+			}
+		}
+	}
 	for k := 0; k < simPoolSize; k++ {
 		if !have[k] && rapid.IntRange(0, 5).Draw(t, "addacc") != 0 {
-			p.Gen.Accounts = append(p.Gen.Accounts, hGenAcc{Key: k, Balance: rapid.Int64Range(100000, 50000000).Draw(t, "fund2"), NoPub: rapid.IntRange(0, 3).Draw(t, "nopub2") == 0})
+			p.Gen.Accounts = append(p.Gen.Accounts, hGenAcc{Key: k, Balance: rapid.Int64Range(100000, 50000000).Draw(t, "fund2"), NoPub: rapid.IntRange(0, 3).Draw(t, "nopub2") == 0,
+				Dust: rapid.SampledFrom([]int64{0, 1000}).Draw(t, "dust2")})
 		}
 	}
 	return p
